@@ -68,7 +68,7 @@ def rel_eq(a, b, tol=1e-9):
 
 
 def run_shard(spec, rec):
-    os.environ['AEIC_PATH'] = '/repo/tests/data'     # make_performance_model loads at import
+    os.environ['AEIC_PATH'] = os.environ.get('VERIF_REPO', '/repo') + '/tests/data'   # make_performance_model loads at import
     from AEIC.config import Config
     from vlib import boot, perfgen, world
     os.environ['AEIC_PATH'] = str(boot.REPO_TEST_DATA)
